@@ -423,6 +423,10 @@ macro_rules! bitvec_dyn {
     ($bv:ty, $bs:ty) => {
         impl Dyn for $bv {
             fn to_dyn(&self) -> DV {
+                if self.len() > (1 << 22) {
+                    // oversized marker (a crafted input made the container claim this many bits)
+                    return DV::V(u32::MAX, vec![DV::N(self.len() as u128)]);
+                }
                 DV::L(self.iter().map(|b| DV::N(b as u128)).collect())
             }
             fn from_dyn(d: &DV) -> Self {
@@ -435,6 +439,9 @@ macro_rules! bitvec_dyn {
         }
         impl Dyn for $bs {
             fn to_dyn(&self) -> DV {
+                if self.get_ref().len() > (1 << 22) {
+                    return DV::V(u32::MAX, vec![DV::N(self.get_ref().len() as u128)]);
+                }
                 DV::L(self.iter().map(|b| DV::N(b as u128)).collect())
             }
             fn from_dyn(d: &DV) -> Self {
